@@ -62,8 +62,8 @@ theorem recStable_of_laws' (r : RegDef) (d : List Val) (hlen : r.fields.length =
     exact hc _ hren.1 hthis
 
 /-- every value an integer / literal / F-notation float field reads from a line obeys its law, if
-the numbers read are representable in the field (integers fit when printed; floats are finite,
-below `2^1013` in magnitude, and fit when printed) -/
+the numbers read are representable in the field (integers fit when printed; floats are finite
+and fit when printed) -/
 theorem law_of_read_F (f : Field) (l : List Char) (hk : f.kind = .int ∨ f.kind = .lit ∨ FltF f)
     (hgeo : f.stop = f.size + f.start)
     (hfit : ∀ n, f.readText l = .int n → (PyInt.pyStr n).length ≤ f.size ∧ n.natAbs < 10 ^ 4300)
